@@ -125,6 +125,13 @@ def typed_trees(tier, seed):
             out.append(("B", ("bin", op, ("not", x), B_ATOMS[2])))
             out.append(("B", ("bin", op, B_ATOMS[3], ("not", x))))
             out.append(("B", ("not", ("bin", op, x, B_ATOMS[2]))))
+    # string indices that go negative only through C's integer promotion of narrow unsigned operands (s.len - 1 on an empty string, b - 1 with b == 0, ...)
+    for ie in (("bin", "-", ("len", "s"), ("num", 1)), ("bin", "-", V("b"), ("num", 1)), ("bin", "-", V("d"), ("num", 2)), ("bin", "-", V("b"), V("d")), ("bin", "-", ("len", "s"), V("b")),
+               ("bin", "-", ("idx", "s", ("num", 0)), ("num", 1)), ("bin", "-", V("u"), ("num", 1)), ("bin", "-", V("q"), ("num", 1)), ("bin", "+", ("num", -1), V("b")), ("bin", "-", ("last",), ("num", 200)),
+               ("bin", "*", V("b"), ("num", -1)), ("bin", "-", ("bin", "&", V("d"), ("num", 1)), ("num", 1)), ("neg", ("len", "s")), ("neg", V("b"))):
+        out.append(("I", ("idx", "s", ie)))
+        out.append(("B", ("bin", "!=", ("idx", "s", ie), ("num", 0))))
+        out.append(("I", ("bin", "+", ("idx", "s", ie), ("num", 1))))
     def zero_div(e):
         if e[0] == "bin":
             if e[1] in ("/", "%") and e[3][0] == "num" and e[3][1] == 0:
